@@ -41,10 +41,10 @@ ASSUMPTIONS = ["entries may disappear through the documented paths only: destroy
 REACH = ["shared_relay_pairs", "forged_create_live_exit_before_expiry", "forged_create_live_exit_after_expiry",
          "forged_create_live_relay", "forged_destroy_non_neighbour", "forged_destroy_spoofed_source", "replayed_destroy", "cross_circuit_body",
          "garbage_on_live_id", "unknown_id_cell", "legit_destroy_removed_only_own", "data_delivered",
-         "created_relabelled_with_live_exit_id"]
+         "created_relabelled_with_live_exit_id", "signed_message_replayed_from_adversary_address", "forged_created_badauth", "forged_created_shortkey"]
 
 ATTACKS = ["unknown_id", "garbage_live", "cross_body", "create_live", "create_live", "destroy_own_sig", "destroy_replay",
-           "destroy_spoofed_src", "created_cid_swap"]
+           "destroy_spoofed_src", "created_cid_swap", "signed_replay_adv", "forged_created_badauth", "forged_created_shortkey"]
 
 
 def cases(tier: str, base_seed: int):  # noqa: ANN201
@@ -88,7 +88,8 @@ def execute(case: dict) -> dict:  # noqa: C901, PLR0915
                     hop = getattr(obj, "hop", None)
                     snap[(node.name, tname, cid)] = (obj, hop.keys if hop is not None else None,
                                                      hop.peer.public_key.key_to_bin() if hop is not None and hop.peer else None,
-                                                     getattr(obj, "circuit_id", None))
+                                                     getattr(obj, "circuit_id", None),
+                                                     tuple(hop.address) if hop is not None and hop.peer else None)
         return snap
 
     def on_send(pkt, fate) -> None:  # noqa: ANN001
@@ -115,6 +116,29 @@ def execute(case: dict) -> dict:  # noqa: C901, PLR0915
         world.probe("created_relabelled_with_live_exit_id")
         return pkt.data[:23] + ids[swap["n"] % len(ids)].to_bytes(4, "big") + pkt.data[27:]
     net.filters.append(created_filter)
+    forge = {"mode": None, "n": 0, "victims": set()}
+
+    def create_observer(pkt, fate) -> None:  # noqa: ANN001
+        """Off-path forger that has seen a plaintext `create` (circuit id and 16-bit identifier are in the clear): it answers first,
+        with a `created` it made up - random key material of the right or of a wrong length, no session keys involved."""
+        if forge["mode"] is None or pkt.injected or fate == "dup":
+            return
+        parts = cell_parts(pkt.data)
+        if parts is None or not parts[1] or len(parts[3]) < 3 or parts[3][0] != 2:
+            return
+        snd = tw.node_of_ip(pkt.src[0])
+        if snd is None or snd is tw.nodes[-1] or parts[0] not in snd.ov.circuits:
+            return          # only first-hop creates of originators: the answer goes straight to the circuit's owner
+        ident = parts[3][1:3]
+        klen = 32 if forge["mode"] == "badauth" else (31, 0, 33)[forge["n"] % 3]
+        forge["n"] += 1
+        key = rng.randbytes(klen)
+        body = b"\x03" + ident + len(key).to_bytes(2, "big") + key + rng.randbytes(32) + rng.randbytes(8)
+        world.probe("forged_created_" + forge["mode"])
+        forge["victims"].add((snd.name, parts[0]))
+        net.inject(tw.nodes[-1].address if forge["n"] % 2 else pkt.dst, pkt.src, pkt.data[:23] + parts[0].to_bytes(4, "big") + b"\x01\x00" + body,
+                   delay=0.0001, label="forged_created")
+    net.on_send.append(create_observer)
 
     async def send_round(k: int) -> None:
         for ci in circuits:
@@ -241,6 +265,35 @@ def execute(case: dict) -> dict:  # noqa: C901, PLR0915
                     c.nontrivial(f"destroy_spoofed/{tname}/{after_expiry}")
                     pkt_d = adv.call(adv.ov.ezr_pack, DestroyPayload.msg_id, DestroyPayload(cid, 1 + int(pick * 3)))
                     net.inject(tuple(hop.address), target.address, pkt_d, label="forged_destroy")
+            elif kind in ("forged_created_badauth", "forged_created_shortkey"):
+                # circuits under construction: whoever saw the plaintext create answers before the real first hop does
+                c.nontrivial(f"{kind}/{after_expiry}")
+                forge["mode"] = kind.rsplit("_", 1)[1]
+                forge["victims"] = set()
+                started = []
+                for o in tw.nodes[:n_orig]:
+                    started.append((o, o.call(o.ov.create_circuit, 1 + int(pick * 2) % 2)))
+                await asyncio.sleep(1.0)
+                forge["mode"] = None
+                for o, circ in started:
+                    if circ is None or (o.name, circ.circuit_id) not in forge["victims"]:
+                        continue
+                    if circ.circuit_id not in o.ov.circuits or circ.state == "CLOSING":
+                        c.violate("tables_unchanged", "circuit_under_construction_removed_by_forged_created",
+                                  f"{o.name} gave up circuit {circ.circuit_id} ({circ.goal_hops} hops, state {circ.state}) after a "
+                                  f"`created` made up by a third party without any keys (key material: "
+                                  f"{'32 random bytes' if kind.endswith('badauth') else 'wrong length'})")
+            elif kind == "signed_replay_adv":
+                # genuine, correctly signed overlay messages of the entry's neighbour, replayed from the adversary's own address
+                entry = before[(node_name, tname, cid)][0]
+                hop = getattr(entry, "hop", None)
+                nb = tw.node_of_key(hop.peer.public_key.key_to_bin()) if hop is not None and hop.peer is not None else None
+                olds = [p for p in tw.wire if nb is not None and p.src_node == nb.name and not p.injected and len(p.data) > 23
+                        and p.data[22] != 0 and p.data[:22] == prefix]
+                for p in olds[:2] + olds[-2:]:
+                    world.probe("signed_message_replayed_from_adversary_address")
+                    c.nontrivial(f"signed_replay_adv/{tname}/{p.data[22]}")
+                    net.inject(adv.address, target.address, p.data, label="replayed_signed")
             elif kind == "destroy_replay":
                 if destroys_seen:
                     world.probe("replayed_destroy")
@@ -279,7 +332,7 @@ def execute(case: dict) -> dict:  # noqa: C901, PLR0915
                     if cid in frontier and tname == "relay_from_to":
                         frontier.add(obj.circuit_id)
                 legit_gone |= frontier
-        for key, (obj, keys, peer_key, _x) in before.items():
+        for key, (obj, keys, peer_key, _x, addr0) in before.items():
             node, tname, cid = key
             if key not in stable:
                 continue
@@ -296,6 +349,17 @@ def execute(case: dict) -> dict:  # noqa: C901, PLR0915
                           f"attacks={[a['kind'] for a in case['attacks']]}")
             elif now[1] is not keys or now[2] != peer_key:
                 c.violate("tables_unchanged", f"entry_rekeyed:{tname}", f"{node}.{tname}[{cid}] got other keys / peer")
+            elif now[4] != addr0 and tname == "circuits" or (now[4] != addr0 and tname == "relay_from_to"
+                                                               and getattr(obj, "direction", None) != 1):
+                # Forward next-hop entries share the Network's Peer object, whose address follows the latest correctly signed
+                # message of that key - also a replayed one.  That diverts ciphertext of the forward direction to the replayer
+                # (a denial of service, observed on the unchanged tree); the statement constrains where *replies* go and where
+                # traffic *leaves*, so only the backward entries (exit entries, backward relays) are judged below.
+                world.probe("forward_next_hop_readdressed_by_replay_not_judged")
+            elif now[4] != addr0:
+                c.violate("tables_unchanged", f"entry_readdressed:{tname}",
+                          f"{node}.{tname}[{cid}]: the address of its neighbour on the circuit changed from {addr0} to {now[4]}"
+                          f"{' (the adversary)' if now[4] == tuple(adv.address) else ''}; attacks={[a['kind'] for a in case['attacks']]}")
         for key in after:
             # (an id that was freed by the legitimate teardown above is free: a create naming it afterwards is a new circuit)
             if key not in before and key[2] in {k[2] for k in before} and key[2] not in legit_gone:
